@@ -1,0 +1,25 @@
+//go:build verif
+
+package ops
+
+// Contracts for the govc verifier (/verif/DESIGN.md). Package clause and comments only.
+//
+// C17 kernel: the skip/limit bookkeeping of the sequential traversal helpers. A candidate is collected exactly when the
+// skip budget is used up and the limit (if any) is not reached; skipped candidates only consume the skip budget, never
+// the limit; collected ones only count towards the limit. From that, by induction over the candidates in order: of the
+// candidates offered, the first Skip are passed over and the next Limit (all further ones when Limit is 0) are
+// collected.
+
+//@ func (s *LimitSkipTracker) AtLimit() bool
+//@   requires s != nil
+//@   nomod
+//@   ensures result == (s.Limit > 0 && s.seen >= s.Limit)
+
+//@ func (s *LimitSkipTracker) ShouldCollect() bool
+//@   requires s != nil
+//@   modifies s.Skip, s.seen
+//@   ensures skipping: old(s.Skip) > 0 ==> !result && s.Skip == old(s.Skip) - 1 && s.seen == old(s.seen)
+//@   ensures collecting: old(s.Skip) <= 0 && !(s.Limit > 0 && old(s.seen) >= s.Limit) ==> result && s.seen == old(s.seen) + 1 && s.Skip == old(s.Skip)
+//@   ensures full: old(s.Skip) <= 0 && s.Limit > 0 && old(s.seen) >= s.Limit ==> !result && s.seen == old(s.seen) && s.Skip == old(s.Skip)
+//@   ensures limitKept: s.Limit == old(s.Limit)
+
